@@ -123,6 +123,8 @@ type ServerConfig struct {
 	CustomCloseErr bool
 	// BareBaseTLS: the base TLS configuration lists no application protocols (and has no GetConfigForClient)
 	BareBaseTLS bool
+	// ListenerStore, when set, is the storage the LISTENER is given (another handle on the same data as the world's)
+	ListenerStore nodeenrollment.Storage
 	Unix         string
 }
 
@@ -220,9 +222,13 @@ func NewServer(cfg ServerConfig) (*Server, error) {
 		opts = exact
 	}
 	s.Opts = opts
+	var lstore nodeenrollment.Storage = w.Store
+	if cfg.ListenerStore != nil {
+		lstore = cfg.ListenerStore
+	}
 	lc := &protocol.InterceptingListenerConfiguration{
 		Context:              w.Ctx,
-		Storage:              w.Store,
+		Storage:              lstore,
 		BaseListener:         s.Base,
 		BaseTlsConfiguration: s.BaseTLS,
 		Options:              opts,
